@@ -3,4 +3,6 @@ EXTENDS Dec
 SubBoth == {TRUE, FALSE}
 SelAll  == {"both", "labelOnly", "annOnly", "neither"}
 SelBoth == {"both"}
+StyAll == {"ml", "me", "mixed"}
+StyMl == {"ml"}
 =============================================================================
